@@ -343,7 +343,7 @@ class Builder:
         with self.in_block_context(context, "subcircuit"):
             statements = [self.build(arg, context, gate_context) for arg in args[1:]]
             count = args[0]
-            if count == "":
+            if count == "" or count is None:
                 built_count = 1
             else:
                 built_count = self.build(count, context, gate_context)
@@ -678,7 +678,7 @@ class BlockBuilder:
         :type iterations: int, str, AnnotatedValue, or None
         """
 
-        builder = SubcircuitBlockBuilder()
+        builder = SubcircuitBlockBuilder(iterations)
         self.expression.append(builder.expression)
         return builder
 
